@@ -1,7 +1,8 @@
 """C06 -- interrupted or killed runs leave a dependency DB that never lies.
 
 Everything runs the REAL doit: `DoitMain(ModuleTaskLoader(ns)).run([...])` in a SUBPROCESS of /venv/bin/python
-with PYTHONPATH=/repo (this very file, started with `--child spec.json`), so that interrupts really propagate
+with the environment of common.impl_env() (PYTHONPATH = the repository under test; this very file, started with
+`--child spec.json`), so that interrupts really propagate
 and kills really kill.  Task sets are small (2-4 tasks, python actions, file_dep/targets in a temp dir, all
 paths relative to the run directory).  Actions are deterministic: a target's content and mtime are functions of
 the contents of the task's dependencies, so the bytes doit writes to the DB are the same in every repetition of a
@@ -477,7 +478,8 @@ def interrupt_case(job):
     except for the DB inspection)."""
     d, sc, backend, variant, target, ai, kind, args2 = (job[x] for x in ('dir', 'sc', 'backend', 'variant', 'target', 'ai', 'kind', 'args'))
     names = [t['name'] for t in sc['tasks']]
-    res = dict(job=dict(backend=backend, variant=variant, target=target, ai=ai, kind=kind, args=args2,
+    res = dict(job=dict(replay='interrupt', backend=backend, variant=variant, target=target, ai=ai, kind=kind, args=args2,
+                        modify=job.get('modify', []), failing=job.get('failing'), runner=job.get('runner', 'serial'),
                         tasks=sc['tasks'], selected=sc['selected']), problems=[])
     os.makedirs(d, exist_ok=True)
     for s in sources_of(sc):
@@ -527,7 +529,7 @@ def part_interrupt(ctx, out, cases):
         for backend in BACKENDS:
             for t in sc['tasks']:
                 for ai in range(len(t['actions'])):
-                    variants = ['fresh', 'prior'] if ctx.quick else ['fresh', 'prior', 'prior-fail']
+                    variants = ['fresh', 'prior'] + (['prior-fail'] if (not ctx.quick or rng.random() < 0.4) else [])
                     for variant in variants:
                         kind_list = [rng.choice(['kbd', 'sysexit'])] if ctx.quick else ['kbd', 'sysexit']
                         for kind in kind_list:
@@ -761,26 +763,10 @@ def kill_setup(d, sc, backend, variant):
     return 1
 
 
-def kill_point(job):
-    d, base, sc, backend = job['dir'], job['base'], job['sc'], job['backend']
-    shutil.copytree(base, d)
-    rid = job['rid']
-    st = os.path.join(d, 'strace.out')
-    t0 = time.time()
-    rc, err = run_child(d, sc, backend, rid, kinds=job['kinds'], args=job['args'], strace=dict(out=st, inject=job['inject']))
-    calls = parse_strace(st)
-    recs = read_log(d)
-    v1 = run_view(recs, rid)
-    got = snapshot(d, backend)
-    killed = (rc == 137 or rc == -9) and not v1['ended']
-    res = dict(killed=killed, rc=rc, n_calls=len(calls), got=got, last_call=calls[-1][1:3] if calls else None)
-    # intended json document: payloads of the write calls on the DB file, the interrupted one included
-    if backend == 'json':
-        res['writes'] = [hexarg(c[2]) for c in calls if c[1] == 'write']
-        res['writes_done'] = [hexarg(c[2]) for c in calls if c[1] == 'write' and c[3] != '?']
-        res['truncated'] = any(c[1] == 'openat' and 'O_TRUNC' in c[2] and c[3] != '?' for c in calls)
+def after_crash(d, sc, backend, rid, args, kinds, res):
+    """the run after a kill (or a simulated torn write) and the soundness oracle; fills res"""
     # the run after the kill
-    rc2, err2 = run_child(d, sc, backend, rid + 1, args=job['args'])
+    rc2, err2 = run_child(d, sc, backend, rid + 1, args=args)
     recs = read_log(d)
     v2 = run_view(recs, rid + 1)
     res['rc2'], res['err2'] = rc2, err2[-600:]
@@ -800,18 +786,106 @@ def kill_point(job):
     for i in ev_tasks(v2, 5):
         nm = names[i]
         state, targets_ok = v2['sel'].get(nm, (None, False))
-        if targets_ok and rid > 0 and run_view(recs, 0)['done'].get(nm) == state and nm not in job['kinds']:
+        if targets_ok and rid > 0 and run_view(recs, 0)['done'].get(nm) == state and nm not in kinds:
             res['forgot'].append(nm)
     res['rc3'] = None
     if rc2 == 0:
-        rc3, err3 = run_child(d, sc, backend, rid + 2, args=job['args'])
+        rc3, err3 = run_child(d, sc, backend, rid + 2, args=args)
         v3 = run_view(read_log(d), rid + 2)
+        res['retried3'] = None
+        if rc3 != 0 and not v3['ended']:
+            # the interpreter itself died before doit finished (seen once under heavy load): try again, keep the evidence
+            res['retried3'] = 'rc=%s stderr=%s' % (rc3, err3[-300:])
+            rc3, err3 = run_child(d, sc, backend, rid + 3, args=args)
+            v3 = run_view(read_log(d), rid + 3)
         res['rc3'] = rc3
         res['err3'] = err3[-500:]
         res['executed3'] = sorted(names[i] for i in ev_tasks(v3, 5))
+
+
+def torn_case(job):
+    """a complete run, then the DB file is replaced by a torn version of itself (a state no SIGKILL produces: a write
+    that reached the disk only in part), then the next run, judged by the same oracle"""
+    d, base, sc, backend = job['dir'], job['base'], job['sc'], job['backend']
+    shutil.copytree(base, d)
+    rid = job['rid']
+    rc, err = run_child(d, sc, backend, rid, kinds=job['kinds'], args=job['args'])
+    res = dict(rc=rc, ok=rc in (0, 1, 2))
+    for nm, content in job['files'].items():
+        with open(os.path.join(d, nm), 'wb') as f:
+            f.write(content)
+    after_crash(d, sc, backend, rid, job['args'], job['kinds'], res)
+    shutil.rmtree(d, ignore_errors=True)
+    return res
+
+
+def torn_versions(backend, new, rng, limit):
+    """(label, {file: bytes}) torn versions of the DB a complete run left"""
+    out = []
+    if backend == 'json' and new.get(DBNAME):
+        doc = new[DBNAME]
+        cuts = sorted(set([1, 2, len(doc) // 3, len(doc) // 2, len(doc) - 2, len(doc) - 1] + [rng.randrange(1, len(doc)) for _ in range(limit)]))
+        for c in cuts[:limit + 6]:
+            if 0 < c < len(doc):
+                out.append(('json-prefix:%d/%d' % (c, len(doc)), {DBNAME: doc[:c]}))
+    if backend == 'dbm' and new.get(DBNAME + '.dir'):
+        dirb = new[DBNAME + '.dir']
+        start = dirb.rfind(b'\n', 0, len(dirb) - 1) + 1
+        cuts = list(range(start + 1, len(dirb) - 1))
+        if len(cuts) > limit:
+            cuts = sorted(rng.sample(cuts, limit))
+        for c in cuts:
+            out.append(('dir-torn-line:%r' % dirb[start:c].decode('latin-1'), {DBNAME + '.dir': dirb[:c]}))
+    return out
+
+
+def kill_point(job):
+    d, base, sc, backend = job['dir'], job['base'], job['sc'], job['backend']
+    shutil.copytree(base, d)
+    rid = job['rid']
+    st = os.path.join(d, 'strace.out')
+    t0 = time.time()
+    rc, err = run_child(d, sc, backend, rid, kinds=job['kinds'], args=job['args'], strace=dict(out=st, inject=job['inject']))
+    calls = parse_strace(st)
+    recs = read_log(d)
+    v1 = run_view(recs, rid)
+    got = snapshot(d, backend)
+    killed = (rc == 137 or rc == -9) and not v1['ended']
+    res = dict(killed=killed, rc=rc, n_calls=len(calls), got=got, last_call=calls[-1][1:3] if calls else None)
+    # intended json document: payloads of the write calls on the DB file, the interrupted one included
+    if backend == 'json':
+        res['writes'] = [hexarg(c[2]) for c in calls if c[1] == 'write']
+        res['writes_done'] = [hexarg(c[2]) for c in calls if c[1] == 'write' and c[3] != '?']
+        res['truncated'] = any(c[1] == 'openat' and 'O_TRUNC' in c[2] and c[3] != '?' for c in calls)
+    after_crash(d, sc, backend, rid, job['args'], job['kinds'], res)
     res['secs'] = time.time() - t0
     shutil.rmtree(d, ignore_errors=True)
     return res
+
+
+def judge_after(out, res, shape, desc, where, how, backend, refused, surprising):
+    """the soundness oracle on the run(s) after a crash"""
+    if res['rc2'] == 3:
+        last = [l for l in res['err2'].strip().splitlines() if l.strip()][-1:] or ['']
+        exc = last[0].split(':')[0].strip()[:60]
+        refused.setdefault(backend, {})
+        refused[backend][exc] = refused[backend].get(exc, 0) + 1
+    elif res['rc2'] != 0:
+        out.violations.append(dict(what='run after the %s exits %s (neither refused=3 nor 0): %s' % (where, res['rc2'], res['err2'][-300:]),
+                                   shape=shape + ':next-rc', case=desc))
+    if res['lies']:
+        out.violations.append(dict(what='LYING DB after %s (backend %s): the next run skipped %s as up-to-date but no completed '
+                                        'execution has the present dependency state; reproduce with: %s'
+                                        % (where, backend, res['lies'], how), shape=shape + ':lying', case=desc))
+    if res['rc2'] == 0 and res['rc3'] is not None and (res['rc3'] != 0 or res['executed3']):
+        out.violations.append(dict(what='after a %s and one accepted run the DB is still not consistent: third run rc=%s executed %s stderr: %s'
+                                        % (where, res['rc3'], res.get('executed3'), res.get('err3')), shape=shape + ':third-run', case=desc))
+    if res.get('retried3'):
+        out.extra.setdefault('third_run_retried', []).append(res['retried3'])
+    if res['forgot']:
+        surprising.setdefault(backend, {})
+        key = 'forgot tasks recorded by an earlier complete run'
+        surprising[backend][key] = surprising[backend].get(key, 0) + 1
 
 
 def part_kill(ctx, out, cases):
@@ -819,7 +893,8 @@ def part_kill(ctx, out, cases):
     root = ctx.subdir('kill')
     plans = []
     if ctx.quick:
-        sc_list = [(gen_scenario(rng, 2, select_all=True), ['fresh', 'prior', 'prior-fail'])]
+        sc_list = [(gen_scenario(rng, 2, select_all=True), ['fresh', 'prior', 'prior-fail']),
+                   (gen_scenario(rng, 3, select_all=True), ['prior', 'prior-fail'])]
     else:
         sc_list = [(gen_scenario(rng, 2, select_all=True), ['fresh', 'prior', 'prior-fail']), (gen_scenario(rng, 3, select_all=True), ['fresh', 'prior', 'prior-fail']),
                    (gen_scenario(rng, 4, select_all=True), ['prior', 'prior-fail']), (gen_scenario(rng, 2, big=120, select_all=True), ['fresh', 'prior'])]
@@ -839,7 +914,7 @@ def part_kill(ctx, out, cases):
             os.makedirs(base)
             for s in sources_of(sc):
                 write_source(base, s, 0)
-            rid, kinds, args = 0, {}, list(pl['args'])
+            rid, kinds, args, mod = 0, {}, list(pl['args']), []
             if variant != 'fresh':
                 rc, err = run_child(base, sc, backend, 0, args=args)
                 if rc != 0:
@@ -872,7 +947,7 @@ def part_kill(ctx, out, cases):
             counts = {}
             for c in calls:
                 counts[c[1]] = counts.get(c[1], 0) + 1
-            plan_info.append(dict(pi=pi, plan=pl, base=base, old=old, new=new, counts=counts, rid=rid, kinds=kinds, args=args, n_calls=len(calls)))
+            plan_info.append(dict(pi=pi, plan=pl, base=base, old=old, new=new, counts=counts, rid=rid, kinds=kinds, args=args, n_calls=len(calls), mod=list(mod)))
             for s, c in sorted(counts.items()):
                 for k in range(1, c + 1):
                     jobs.append(dict(pi=pi, dir=os.path.join(root, 'k%d_%s_%d' % (pi, s, k)), base=base, sc=sc, backend=backend,
@@ -891,8 +966,8 @@ def part_kill(ctx, out, cases):
         s, k = job['inject']
         cmdline = ('strace -f -P <%s> -e trace=%s -e inject=%s:signal=SIGKILL:when=%d  [backend %s, %s, args %s]'
                    % (','.join(os.path.basename(p) for p in db_files('.', backend)), ','.join(SYSCALLS), s, k, backend, variant, job['args']))
-        desc = dict(backend=backend, variant=variant, inject='%s:%d' % (s, k), args=job['args'], kinds=job['kinds'],
-                    tasks=pl['sc']['tasks'], selected=pl['sc']['selected'], strace=cmdline)
+        desc = dict(replay='kill', backend=backend, variant=variant, inject='%s:%d' % (s, k), args=job['args'], kinds=job['kinds'],
+                    modified=inf['mod'], base_args=pl['args'], tasks=pl['sc']['tasks'], selected=pl['sc']['selected'], strace=cmdline)
         shape = 'kill:%s:%s' % (backend, variant)
         out.evaluations += 1
         out.count('kill:%s:%s' % (backend, variant))
@@ -903,26 +978,7 @@ def part_kill(ctx, out, cases):
             continue
         per_backend[backend] = per_backend.get(backend, 0) + 1
         out.nontrivial.add((backend, variant, tuple(job['args']), s, k, pl['si']))
-        # --- the soundness oracle
-        if res['rc2'] == 3:
-            last = [l for l in res['err2'].strip().splitlines() if l.strip()][-1:] or ['']
-            exc = last[0].split(':')[0].strip()[:60]
-            refused.setdefault(backend, {})
-            refused[backend][exc] = refused[backend].get(exc, 0) + 1
-        elif res['rc2'] != 0:
-            out.violations.append(dict(what='run after the kill exits %s (neither refused=3 nor 0): %s' % (res['rc2'], res['err2'][-300:]),
-                                       shape=shape + ':next-rc', case=desc))
-        if res['lies']:
-            out.violations.append(dict(what='LYING DB after kill at %s #%d (backend %s, %s): the next run skipped %s as up-to-date but no completed '
-                                            'execution has the present dependency state; reproduce with: %s'
-                                            % (s, k, backend, variant, res['lies'], cmdline), shape=shape + ':lying', case=desc))
-        if res['rc2'] == 0 and res['rc3'] is not None and (res['rc3'] != 0 or res['executed3']):
-            out.violations.append(dict(what='after a kill and one accepted run the DB is still not consistent: third run rc=%s executed %s stderr: %s'
-                                            % (res['rc3'], res.get('executed3'), res.get('err3')), shape=shape + ':third-run', case=desc))
-        if res['forgot']:
-            surprising.setdefault(backend, {})
-            key = 'forgot tasks recorded by an earlier complete run'
-            surprising[backend][key] = surprising[backend].get(key, 0) + 1
+        judge_after(out, res, shape, desc, 'kill at %s #%d' % (s, k), cmdline, backend, refused, surprising)
         # --- classification against the Crash.v conclusions
         labels, problem = classify_disk(backend, inf['old'], inf['new'], res['got'], job['dir'] + '-sq')
         for l in set(labels):
@@ -945,6 +1001,42 @@ def part_kill(ctx, out, cases):
                 x.get('kind') == 'kill' and x['backend'] == backend and x['disk'] == labels for x in out.samples):
             out.samples.append(dict(kind='kill', backend=backend, variant=variant, inject='%s:%d' % (s, k), disk=labels,
                                     next_run_rc=res['rc2'], next_run_skipped=res['skipped2'], next_run_executed=res['executed2']))
+    # --- simulated torn writes (beyond what a SIGKILL can produce): J-prefix through the real JsonDB._load, and the
+    # assumption that a torn last line of .dir is never read as a valid entry
+    tjobs = []
+    for inf in plan_info:
+        pl = inf['plan']
+        if pl['backend'] not in ('json', 'dbm') or pl['si'] > 1:
+            continue
+        for label, files in torn_versions(pl['backend'], inf['new'], rng, ctx.n(4, 14)):
+            tjobs.append(dict(pi=inf['pi'], dir=os.path.join(root, 't%d_%d' % (inf['pi'], len(tjobs))), base=inf['base'], sc=pl['sc'],
+                              backend=pl['backend'], rid=inf['rid'], kinds=inf['kinds'], args=inf['args'], files=files, label=label))
+    with concurrent.futures.ThreadPoolExecutor(max_workers=common.NCPU) as ex:
+        tres = list(ex.map(torn_case, tjobs))
+    torn_refused, torn_out, torn_accepted = {}, {}, []
+    for job, res in zip(tjobs, tres):
+        pl = by_pi[job['pi']]['plan']
+        backend = pl['backend']
+        desc = dict(replay='torn', backend=backend, variant=pl['variant'], torn=job['label'], args=job['args'], kinds=job['kinds'],
+                    modified=by_pi[job['pi']]['mod'], base_args=pl['args'], tasks=pl['sc']['tasks'], selected=pl['sc']['selected'])
+        out.evaluations += 1
+        out.count('torn-write:%s' % backend)
+        if not res['ok']:
+            out.mismatches.append(dict(case=desc, impl='run before the simulated torn write failed rc=%s' % res['rc'], model=''))
+            continue
+        out.nontrivial.add(('torn', backend, job['pi'], job['label']))
+        judge_after(out, res, 'torn:%s' % backend, desc, 'simulated torn write (%s)' % job['label'],
+                    'truncate the DB file as described', backend, torn_refused, surprising)
+        key = 'refused(exit 3)' if res['rc2'] == 3 else ('accepted, executed %d skipped %d' % (len(res['executed2']), len(res['skipped2'])))
+        torn_out.setdefault(backend, {})
+        torn_out[backend][key] = torn_out[backend].get(key, 0) + 1
+        if backend == 'dbm' and res['rc2'] != 3:
+            torn_accepted.append(dict(torn=job['label'], executed=res['executed2'], skipped=res['skipped2']))
+        if backend == 'json' and res['rc2'] != 3:
+            out.violations.append(dict(what='JsonDB accepted a proper prefix of its document (%s): J-prefix fails on the real _load' % job['label'],
+                                       shape='assumption:J-prefix-load', case=desc))
+    out.extra['simulated_torn_writes'] = dict(cases=len(tjobs), outcome=torn_out, refused_by_exception=torn_refused,
+                                              dbm_torn_line_accepted=torn_accepted[:8])
     out.extra['kill_points_per_backend'] = per_backend
     out.extra['kill_syscall_counts_per_scenario'] = [dict(backend=inf['plan']['backend'], variant=inf['plan']['variant'], args=inf['args'], calls=inf['counts'])
                                                      for inf in plan_info]
@@ -959,13 +1051,29 @@ def nlist(b):
 
 
 # ------------------------------------------------------------------ (3) dbm.dumb step model against the real module
+def dumb_case(job):
+    d, sessions = job
+    os.makedirs(d)
+    ok = True
+    for si, sess in enumerate(sessions):
+        sp = os.path.join(d, 's%d.json' % si)
+        with open(sp, 'w') as f:
+            json.dump(sess, f)
+        p = subprocess.run([common.PY, os.path.join(HERE, 'c06.py'), '--dumb', sp], env=common.impl_env(),
+                           stdout=subprocess.PIPE, stderr=subprocess.PIPE, timeout=60)
+        ok = ok and p.returncode == 0
+    exp = enc_dumb_files(d) if ok else [98]
+    shutil.rmtree(d, ignore_errors=True)
+    return exp
+
+
 def part_dumb_model(ctx, out, cases):
     rng = ctx.rng
     root = ctx.subdir('dumb')
     lens = [0, 1, 5, 511, 512, 513, 700, 1023, 1024, 1025, 1300]
+    jobs = []
     for ci in range(ctx.n(30, 200)):
         d = os.path.join(root, 'd%d' % ci)
-        os.makedirs(d)
         keys = ['k%d' % i for i in range(4)]
         sessions = []
         for si in range(rng.choice([1, 2, 2, 3])):
@@ -973,25 +1081,20 @@ def part_dumb_model(ctx, out, cases):
             sk = rng.sample(keys, rng.randrange(0, 4))
             sets = [(k, rng.randrange(97, 123), rng.choice(lens)) for k in sk]
             sessions.append(dict(name=os.path.join(d, 'db'), dels=dels, sets=sets))
-        ok = True
-        for si, sess in enumerate(sessions):
-            sp = os.path.join(d, 's%d.json' % si)
-            json.dump(sess, open(sp, 'w'))
-            p = subprocess.run([common.PY, os.path.join(HERE, 'c06.py'), '--dumb', sp], env=common.impl_env(),
-                               stdout=subprocess.PIPE, stderr=subprocess.PIPE, timeout=60)
-            ok = ok and p.returncode == 0
-        exp = [98]
-        if ok:
-            exp = enc_dumb_files(d)
+        jobs.append((d, sessions))
+    with concurrent.futures.ThreadPoolExecutor(max_workers=common.NCPU) as ex:
+        exps = list(ex.map(dumb_case, jobs))
+    for ci, ((d, sessions), exp) in enumerate(zip(jobs, exps)):
         sess_coq = '[' + '; '.join('(%s, %s)' % (runlib.nl([int(k[1:]) for k in s['dels']]),
                                                  '[' + '; '.join('(%d, repeat %d %d%%nat)' % (int(k[1:]), c, n) for k, c, n in s['sets']) + ']')
                                    for s in sessions) + ']'
-        cases.append(dict(model='enc_ddisk (dumb_sessions %s)' % sess_coq, expected=exp, desc=('dumb-session', sessions)))
+        cases.append(dict(model='enc_ddisk (dumb_sessions %s)' % sess_coq, expected=exp,
+                          desc=('dumb-session', [dict(dels=s['dels'], sets=s['sets']) for s in sessions])))
         out.count('dumb-session:%d' % len(sessions))
         out.evaluations += 1
         if any(s['sets'] for s in sessions):
             out.nontrivial.add(('dumb', ci))
-        shutil.rmtree(d, ignore_errors=True)
+    out.extra['dumb_sessions_compared_with_Crash_v'] = len(jobs)
 
 
 def rle(b):
@@ -1112,7 +1215,10 @@ def run(ctx):
         'sqlite3 commits atomically and rolls a hot journal back on the next open (trusted; swept by the kill points on name/name-journal)',
         'a kill (SIGKILL) takes effect between system calls: each write()/rename()/unlink()/open(O_TRUNC) is atomic and they reach the file in '
         'program order; block-level torn writes after power loss are outside the model',
-        'a torn last line of a dbm.dumb .dir file makes dbm.dumb.open raise (modelled as: index unreadable)',
+        'a torn last line of a dbm.dumb .dir file makes dbm.dumb.open raise (SyntaxError/ValueError -> exit 3; modelled as: index unreadable) or, '
+        'rarely, is read as an entry of a different shorter key with an unreadable value (the bytes \'t1\' are the python literal "t1", unpacked into '
+        'key "t" and value "1"): the torn key is then absent and the other lines read as in the crash state before the torn write -- see '
+        'simulated_torn_writes.dbm_torn_line_accepted; such states need a partially completed write() and are not produced by SIGKILL',
     ]
     out.extra['trusted_base'] = ['strace 6.1 signal injection (-e inject=<syscall>:signal=SIGKILL:when=k, one counter per syscall name) delivers the kill at '
                                  'entry of the k-th call of that syscall on the DB files',
@@ -1121,5 +1227,41 @@ def run(ctx):
 
 
 def replay(ctx, payload):
+    """re-run the case of a replay file against the repository under test and print what happens"""
+    case = payload.get('case', {})
+    print('property C06, recorded: %s' % payload.get('what'))
+    kind = case.get('replay')
+    sc = dict(tasks=case.get('tasks'), selected=case.get('selected'))
+    d = os.path.join(ctx.subdir('replay'), 'w')
+    if kind == 'interrupt':
+        job = dict(dir=d, sc=sc, backend=case['backend'], variant=case['variant'], target=case['target'], ai=case['ai'], kind=case['kind'],
+                   args=case['args'], modify=case.get('modify', []), failing=case.get('failing'), runner=case.get('runner', 'serial'))
+        res = interrupt_case(job)
+        names = [t['name'] for t in sc['tasks']]
+        print('interrupted run: rc=%s trace=%s' % (res.get('rc1'), res.get('v1', {}).get('trace')))
+        print('DB records %s, expected %s' % (res.get('recorded'), res.get('expected_recorded')))
+        v2 = res.get('v2', {'events': []})
+        skipped = sorted(names[i] for i in ev_tasks(v2, 3))
+        print('next run: rc=%s skipped=%s executed=%s, expected skipped=%s' % (res.get('rc2'), skipped, sorted(names[i] for i in ev_tasks(v2, 5)), res.get('expect_skip2')))
+        bad = res.get('recorded') != res.get('expected_recorded') or skipped != res.get('expect_skip2') or res.get('rc2') != 0
+        return 1 if bad else 0
+    if kind == 'kill':
+        base = os.path.join(ctx.subdir('replay'), 'base')
+        os.makedirs(base)
+        for s_ in sources_of(sc):
+            write_source(base, s_, 0)
+        rid = 0
+        if case['variant'] != 'fresh':
+            run_child(base, sc, case['backend'], 0, args=case.get('base_args', []))
+            for s_ in case.get('modified', []):
+                write_source(base, s_, 1)
+            rid = 1
+        kinds = {k: tuple(v) for k, v in case.get('kinds', {}).items()}
+        sname, k = case['inject'].split(':')
+        res = kill_point(dict(dir=d, base=base, sc=sc, backend=case['backend'], rid=rid, kinds=kinds, args=case['args'], inject=(sname, int(k))))
+        print('killed=%s; next run rc=%s skipped=%s executed=%s; skipped without a completed execution: %s'
+              % (res['killed'], res['rc2'], res['skipped2'], res['executed2'], res['lies']))
+        print(res['err2'][-400:])
+        return 1 if (res['lies'] or res['rc2'] not in (0, 3)) else 0
     print(json.dumps(payload, indent=1)[:4000])
     return 0
